@@ -18,6 +18,14 @@ PLAN = {
  "C11b-tobuf-rewind-axis0": ["C11", "C03"], "C12b-single-read-prefix": ["C12", "C18"], "C13b-mask-slice-pattern": ["C13", "C17"],
  "C14b-normalize-sum-le-1": ["C14", "C13"], "C15b-pad-boundary-no-newline": ["C15"], "C16b-text-read-line": ["C16"],
  "C17b-segsites-slice": ["C17", "C06"], "C18b-bufwriter-no-flush": ["C18", "C15"], "C19b-view-iter-guard": ["C19", "C04"],
+ # round 3
+ "C01c-samples-file-split-whitespace": ["C01", "C09"], "C02c-lnfactorial-gamma-x": ["C02", "C03"], "C03c-skip-tiny-weights": ["C03"],
+ "C04c-adjacent-duplicate-check": ["C04", "C17"], "C05c-index-sum-first-axis-shortcut": ["C05"], "C06c-segsites-by-frequency": ["C06", "C14"],
+ "C07c-precision-clamp-15": ["C07"], "C08c-all-missing-any-ploidy": ["C08"], "C09c-rsplit-once-eq": ["C09"],
+ "C10c-break-after-skip-no-projection": ["C10", "C08"], "C11c-cached-projection-status": ["C11", "C02"], "C12c-bgzf-reader-in-detect": ["C12", "C18"],
+ "C13c-is-unsorted-strictly-descending": ["C13", "C04"], "C14c-segsites-includes-first": ["C14", "C06"], "C15c-v3-header-len-2-bytes": ["C15"],
+ "C16c-trim-ascii-before-detect": ["C16", "C07"], "C17c-adjacent-duplicate-check": ["C17", "C04"], "C18c-read-not-exact-v2-len": ["C18", "C15"],
+ "C19c-get-mut-unchecked": ["C19"],
 }
 seeds = sys.argv[1:] or sorted(PLAN)
 for seed in seeds:
